@@ -49,11 +49,13 @@ def gen_op(rng, w, first, hardlinks):
         return ['swap', d, ex(), ex()]
     if k < 0.71:
         return ['move', d, ex(), 'd%d' % rng.randint(1, nd), rpath(rng)]
-    if k < 0.79:
+    if k < 0.77:
         p = ex()
         # cp -p: same path on another disk (path match) or same base name elsewhere (name match)
         q = p if rng.random() < 0.6 else rng.choice(DIRS) + p.rsplit('/', 1)[-1]
         return ['copy', d, p, 'd%d' % rng.randint(1, nd), q]
+    if k < 0.795:
+        return ['samesec', d, ex(), rng.choice(['touch', 'rewrite'])]
     if k < 0.815:
         return ['touch', d, ex()]
     if k < 0.84:
